@@ -83,8 +83,13 @@ def kinds_below(t):
     return [k]
 
 
-def gen_comp(rng, kind, vec=False):
+BIG = [2 ** 31, 2 ** 53 + 1, 2 ** 63 - 1, 2 ** 63, 2 ** 64, -2 ** 63, -2 ** 63 - 1, 2 ** 1100]
+
+
+def gen_comp(rng, kind, vec=False, big=False):
     fl = rng.choice(["py", "py", "py", "np", "np32"])
+    if big and kind == "i" and rng.random() < 0.08:
+        return ["i", rng.choice(BIG), "py"]      # beyond int32 / the exact doubles / int64 / the doubles
     if kind == "b":
         return ["b", rng.randint(0, 1), "py" if fl == "np32" else fl]
     if kind == "i":
@@ -110,7 +115,7 @@ def gen_value(rng, t, k, malformed):
             kd = rng.choice(ok)
             if kd == "s":
                 return ["str", rng.choice(WORDS)]
-            return ["scal", gen_comp(rng, kd)]
+            return ["scal", gen_comp(rng, kd, big=True)]
         r = rng.random()
         if r < 0.6:
             kd = rng.choice(bad)
@@ -130,7 +135,7 @@ def gen_value(rng, t, k, malformed):
             return ["nparr", [gen_comp(rng, kd, True)[:2] + ["py"] for _ in range(k)]]
         if shape == "nparr":
             shape = "list"
-        return [shape, [gen_comp(rng, rng.choice(ok), True) for _ in range(k)]]
+        return [shape, [gen_comp(rng, rng.choice(ok), True, big=True) for _ in range(k)]]
     r = rng.random()
     if r < 0.35:  # wrong arity
         m = rng.choice([x for x in (0, 1, k - 1, k + 1, k + 2) if x != k and x >= 0])
@@ -276,7 +281,7 @@ def gen_history(rng, maxlen=40):
             a0 = names_of(l)[0]
             t, k, _ = meta.get(a0, ("float", 1, False))
             c = rng.randrange(k) if rng.random() < 0.93 else k
-            x = gen_comp(rng, rng.choice(kinds_below(t)), True)
+            x = gen_comp(rng, rng.choice(kinds_below(t)), True, big=True)
             if x[0] in "bif":
                 x[2] = "py"
             for a in names_of(l):
@@ -390,8 +395,11 @@ def comp_kind(c):
 
 
 def cast_comp(c, t):
-    """numeric meaning of an accepted component inside an attribute of type t (bool < int < float widening)"""
+    """numeric meaning of an accepted component inside an attribute of type t (bool < int < float widening; an int
+    widened to float is the nearest double, as python's float() gives it)"""
     k = TKIND[t]
+    if k == "f" and c[0] == "i":
+        return ["f", int(float(c[1])) * 8]
     if k == "b":
         return ["b", int(c[1])]
     if k == "i":
@@ -424,12 +432,28 @@ def value_components(v, k):
     return None
 
 
+def representable(c, t):
+    """the attribute's numpy type can hold the component (both storages refuse alike otherwise: OverflowError)"""
+    if c[0] != "i":
+        return True
+    if TKIND[t] == "i":
+        return -2 ** 63 <= c[1] < 2 ** 63
+    if TKIND[t] == "f":
+        try:
+            float(c[1])
+        except OverflowError:
+            return False
+    return True
+
+
 def value_valid(v, t, k):
     comps = value_components(v, k)
     if comps is None or len(comps) != k:
         return None
     ok = kinds_below(t)
     if any(c[0] not in ok for c in comps):
+        return None
+    if not all(representable(c, t) for c in comps):
         return None
     return [cast_comp(c, t) for c in comps]
 
@@ -624,6 +648,8 @@ class Oracle:
                 c = op[3]
                 if not (0 <= c < A["k"]):
                     return None if o == ["err", "index"] else "item assignment at component %d of %d answered %s" % (c, A["k"], o)
+                if not representable(op[4], A["t"]):
+                    return None if o == ["err", "overflow"] else "item assignment of an unrepresentable int answered %s" % (o,)
                 if o != ["ok"]:
                     return "attr[%d][%d] = x answered %s" % (key, c, o)
                 written = key in A["keys"]
@@ -797,7 +823,7 @@ def value_term(v, I):
 TYT = {"bool": "TBool", "int": "TInt", "float": "TFloat", "complex": "TComplex", "str": "TString"}
 ERR = {"oob": "EOob", "size": "ESize", "type": "EType", "enum": "EEnum", "notiter": "ENotIter", "noattr": "ENoAttr",
        "dflt": "EDflt", "badappend": "EBadAppend", "index": "EIndex", "noref": "ENoRef", "unpack": "EUnpack",
-       "notsub": "ENotSub", "badref": "EBadRef", "ambiguous": "EAmbiguous", "shape": "EShape"}
+       "notsub": "ENotSub", "badref": "EBadRef", "ambiguous": "EAmbiguous", "shape": "EShape", "overflow": "EOverflow"}
 
 
 def op_term(op, I):
@@ -924,36 +950,54 @@ def small_exhaustive():
     return out
 
 
-WITNESSES = {
-    # key -> (case, indices of the two observations that the property wants equal, what)
-    "inplace-update-of-unset-entry": (
-        {"cont": "data", "lock": True, "ops": [["append"], ["create", 0, "float", 2, False, None], ["create", 1, "float", 2, True, None],
-                                               ["update", 0, 0, 0, ["f", 40, "py"]], ["update", 1, 0, 0, ["f", 40, "py"]],
-                                               ["get", 0, 0], ["get", 1, 0]]},
-        (5, 6),
-        "attr[0][0] = 5. on a never-written entry of a vector attribute: the dense storage stores the update (its read is a "
-        "view), the sparse storage loses it (its read is a detached copy of the default): sparse and dense answer differently"),
-    "string-longer-than-fixed-width": (
-        {"cont": "data", "lock": True, "ops": [["append"], ["create", 0, "str", 1, False, None], ["create", 1, "str", 1, True, None],
-                                               ["set", 0, 0, ["str", LONG]], ["set", 1, 0, ["str", LONG]],
-                                               ["get", 0, 0], ["get", 1, 0]]},
-        (5, 6),
-        "a 35-character string written to a scalar string attribute: the dense storage (dtype '<U32') and every as_array "
-        "keep 32 characters, the sparse storage returns all 35: sparse and dense answer differently"),
-}
+def _pair_differs(i, j):
+    return lambda ob: ob[i][:3] != ob[j][:3]
+
+
+WITNESSES = [
+    # (key, case, still-fails predicate on the observations, what)
+    ("inplace-update-of-unset-entry",
+     {"cont": "data", "lock": True, "ops": [["append"], ["create", 0, "float", 2, False, None], ["create", 1, "float", 2, True, None],
+                                            ["update", 0, 0, 0, ["f", 40, "py"]], ["update", 1, 0, 0, ["f", 40, "py"]],
+                                            ["get", 0, 0], ["get", 1, 0]]},
+     _pair_differs(5, 6),
+     "attr[0][0] = 5. on a never-written entry of a vector attribute: the dense storage stores the update (its read is a "
+     "view), the sparse storage loses it (its read is a detached copy of the default): sparse and dense answer differently"),
+    ("string-longer-than-fixed-width",
+     {"cont": "data", "lock": True, "ops": [["append"], ["create", 0, "str", 1, False, ["s", LONG]], ["create", 1, "str", 1, True, ["s", LONG]],
+                                            ["get", 0, 0], ["get", 1, 0]]},
+     _pair_differs(3, 4),
+     "a 35-character custom default of a scalar string attribute: the dense storage (dtype '<U32') keeps 32 characters, the "
+     "sparse read of a never-written entry returns all 35"),
+    ("string-longer-than-fixed-width",
+     {"cont": "data", "lock": True, "ops": [["append"], ["create", 0, "str", 1, False, None], ["create", 1, "str", 1, True, None],
+                                            ["set", 0, 0, ["str", LONG]], ["set", 1, 0, ["str", LONG]], ["get", 0, 0], ["get", 1, 0]]},
+     lambda ob: ob[5][:2] != ["val", [["s", LONG]]] or ob[6][:2] != ["val", [["s", LONG]]],
+     "a 35-character string written to a string attribute is read back cut to 32 characters (both storages, numpy dtype '<U32')"),
+    ("sparse-accepts-out-of-container-index",
+     {"cont": "data", "lock": True, "ops": [["append"], ["create", 0, "int", 1, False, None], ["create", 1, "int", 1, True, None],
+                                            ["set", 0, 5, ["scal", ["i", 7, "py"]]], ["set", 1, 5, ["scal", ["i", 7, "py"]]]]},
+     _pair_differs(3, 4),
+     "a[5] = 7 on a 1-element container: the dense storage answers OutOfBoundsError, the sparse storage accepts the write "
+     "(the value becomes entry 5 once the container has grown that far)"),
+    ("sparse-accepts-out-of-container-index",
+     {"cont": "data", "lock": False, "ops": [["append"], ["append"], ["create", 0, "int", 1, False, None],
+                                             ["set", 0, -1, ["scal", ["i", 5, "py"]]], ["as_array", 0], ["get", 0, 1]]},
+     lambda ob: ob[4][0] == "rows" and ob[5][0] == "val" and ob[4][1][1] != ob[5][1],
+     "a[-1] = 5 on a sparse attribute of a 2-element container: as_array exports 5 at row 1 while a[1] reads the default"),
+]
 
 
 def replay_witnesses(ctx):
     """the _refuted theorems' witnesses, run on the implementation: reported as KNOWN-FINDING while they still fail"""
-    for key, (case, (i, j), what) in WITNESSES.items():
+    for key, case, fails, what in WITNESSES:
         ob = run_one(case)
-        same = ob[i][:3] == ob[j][:3]
-        ctx.obligation("witness of known finding %s still fails on the implementation" % key, "known-finding-witness",
-                       True, "observations %s / %s" % (ob[i], ob[j]))
-        if same:
-            ctx.log("known finding %s: the witness no longer fails (the code was repaired?) - theorem C05_agree_*_refuted "
-                    "describes the model, check Gen.v" % key)
-            ctx.notes.append("witness of %s no longer fails" % key)
+        still = bool(fails(ob))
+        ctx.extra.setdefault("witness_replays", []).append({"key": key, "still_fails": still, "observed_tail": ob[-3:]})
+        if not still:
+            ctx.log("known finding %s: a witness no longer fails on the implementation (repaired?); the _refuted theorem "
+                    "describes the regenerated model" % key)
+            ctx.notes.append("witness of %s no longer fails: %s" % (key, what))
         else:
             ctx.violation(what, {"case": case, "observed": ob, "class": key}, key=key)
 
@@ -1019,8 +1063,13 @@ def run(ctx):
         m = oracle(c, o)
         if m:
             fails.append((idx, m))
+    classes = {}
+    for idx, msg in fails:
+        classes.setdefault(classify(msg), []).append((idx, msg))
+    unknown = sorted(k for k in classes if not ctx.known(k))
     ctx.obligation("oracle: every observation of the implementation satisfies the dict-with-default / bounds / no-aliasing / "
-                   "alignment semantics", "oracle-on-implementation", True, "%d failing cases" % len(fails))
+                   "alignment semantics (failures of listed known-finding classes apart)", "oracle-on-implementation",
+                   not unknown, "%d failing cases; classes: %s" % (len(fails), {k: len(v) for k, v in classes.items()}))
 
     replay_witnesses(ctx)
 
@@ -1032,16 +1081,12 @@ def run(ctx):
     else:
         ctx.obligation("correspondence batches", "correspondence", False, "model does not compile")
 
-    # 3. verdicts
-    reported = set()
-    for idx, msg in fails[:400]:
-        key = classify(msg)
-        if key in reported:
-            continue
-        reported.add(key)
+    # 3. verdicts: every failing case is classified; classes that are not listed known findings first
+    for key in unknown + sorted(k for k in classes if ctx.known(k)):
         if ctx.known(key):
             ctx.report_known(key, ctx.known(key)["what"])
             continue
+        idx, msg = min(classes[key], key=lambda im: len(cases[im[0]]["ops"]))
         case = cases[idx]
 
         def f(cands, case=case, key=key):
@@ -1053,10 +1098,11 @@ def run(ctx):
                 out.append(m2 is not None and classify(m2) == key)
             return out
         import time
-        small = shrink_ops(case["ops"], f, deadline=time.time() + 25) if len(reported) <= 4 else case["ops"]
+        small = shrink_ops(case["ops"], f, deadline=time.time() + 25) if len(ctx.violations) < 4 else case["ops"]
         cc = dict(case, ops=small)
         ob = run_one(cc)
-        ctx.violation(oracle(cc, ob) or msg, {"case": cc, "observed": ob, "class": key}, key=key)
+        ctx.violation("%s  [%d failing cases of this class]" % (oracle(cc, ob) or msg, len(classes[key])),
+                      {"case": cc, "observed": ob, "class": key}, key=key)
     if bad and not fails:
         ctx.notes.append("model and implementation disagree on cases %s although the oracle accepts the implementation's answers" % bad[:5])
         for i in bad[:3]:
